@@ -536,6 +536,36 @@ func checkCellWriters(c *Ctx, r *Report, rule string) {
 			r.check(al[shortFn(root)], rule, k, posOf(c, ins), "listed writer", "the accounting cell "+field+" is written outside its listed writers: the transfer equations checked by R1/R2 no longer describe every change of the cell")
 		})
 	}
+	// the subscriber context - the only place the held reservation is recorded - is
+	// never removed from the pool or replaced by a fresh one while the process serves
+	// requests: a context dropped with a non-zero reservation loses that money (the
+	// account server has already subtracted it)
+	reqReach, _ := c.reach(requestEntries(c))
+	for _, f := range c.ModFuncs {
+		eachInstr(f, func(_ *ssa.BasicBlock, _ int, ins ssa.Instruction) {
+			call, ok := ins.(ssa.CallInstruction)
+			if !ok {
+				return
+			}
+			com := call.Common()
+			obj := calleeObj(com)
+			if obj == nil || obj.Pkg() == nil || obj.Pkg().Path() != "sync" || len(com.Args) == 0 {
+				return
+			}
+			fa, ok := com.Args[0].(*ssa.FieldAddr)
+			if !ok || !typeIs(fa.X.Type(), ctxPath, "CHFContext") || fieldName(fa) != "UePool" {
+				return
+			}
+			switch obj.Name() {
+			case "Delete", "LoadAndDelete", "CompareAndDelete", "Clear", "Swap", "CompareAndSwap", "Store":
+			default:
+				return
+			}
+			root := rootOf(f)
+			k := fmt.Sprintf("subscriber pool %s in %s", obj.Name(), shortFn(root))
+			r.check(!reqReach[f], rule, k, posOf(c, ins), "not reachable from a request entry point", "the subscriber context is removed from (or replaced in) the pool on the request path by "+obj.Name()+": the reservation it holds ("+"ChfUe.ReservedQuota) is forgotten although the account server has already subtracted it - that credit is neither used nor refunded")
+		})
+	}
 	// the balance document is written only by the CCR handler
 	for _, f := range c.ModFuncs {
 		eachInstr(f, func(_ *ssa.BasicBlock, _ int, ins ssa.Instruction) {
